@@ -84,7 +84,11 @@ Controllers ==
         \* D exists if the user gave it or A pulled it in; user parameters override the ones A passes (bar=1) and the default (0)
         dd == IF Has("D") THEN {<<"D", UserOrder("D", 50), UserPar("D", IF Has("A") THEN 1 ELSE 0)>>}
               ELSE IF Has("A") THEN {<<"D", 50, 1>>} ELSE {}
-    IN base \cup a \cup b \cup dd
+        \* E (default order 70) and its SUB-CLASS E2 (default order 75): a controller is instantiated once per CLASS -- an instance of
+        \* the sub-class does not stand in for the base class (nor the other way round), whatever the order of the requests
+        e  == IF Has("E") THEN {<<"E", UserOrder("E", 70), UserPar("E", 0)>>} ELSE {}
+        e2 == IF Has("E2") THEN {<<"E2", UserOrder("E2", 75), UserPar("E2", 0)>>} ELSE {}
+    IN base \cup a \cup b \cup dd \cup e \cup e2
 ControllerList == SortSeq(SetToSeq(Controllers), LAMBDA x, y : x[2] < y[2])
 DistinctOrders == \A x, y \in Controllers : x # y => x[2] # y[2]
 
@@ -102,7 +106,8 @@ Export == PrintT(ToJson([descr |-> TRUE, sh_dt |-> sh_dt, sh_nsw |-> sh_nsw, sh_
 
 CcChoices == {{}, {<<"A", 999, -1>>}, {<<"B", 999, -1>>}, {<<"A", 999, -1>>, <<"B", 999, 7>>},
               {<<"A", 30, 5>>, <<"D", 999, 2>>}, {<<"D", 999, -1>>}, {<<"D", 60, 3>>, <<"B", -20, -1>>},
-              {<<"A", 999, -1>>, <<"D", 40, -1>>}}
+              {<<"A", 999, -1>>, <<"D", 40, -1>>},
+              {<<"E2", 999, -1>>, <<"E", 999, 4>>}, {<<"E2", 999, 6>>}, {<<"E", 65, -1>>}, {<<"E2", 20, 1>>, <<"E", 999, -1>>, <<"B", 999, -1>>}}
 
 Init ==
     /\ sh_dt \in Shapes /\ sh_nsw \in Shapes /\ sh_nodes \in Shapes /\ sh_nvars \in Shapes
